@@ -430,6 +430,38 @@ fn case_iter(rng: &mut Rng, replay: &str) -> (Verdict, u64) {
     if pb.position() != want_pos || pb.message() != want_msg {
         return (viol("finish-behaviour-not-applied", "Iterator", format!("after exhaustion with {fin_name}: position {} (expected {want_pos}), message {:?} (expected {want_msg:?})", pb.position(), pb.message()), w, replay.into()), calls);
     }
+    // the same bar, reset and wrapped around a second pass (a progress bar reused per file / per epoch):
+    // the pass counts from zero and is finished by the same behaviour once more
+    if rng.chance(1, 2) {
+        pb.reset();
+        pb.set_message("");
+        let m = rng.range(0, 10);
+        let mut second = (0..m).progress_with(pb.clone());
+        let mut got = 0u64;
+        while second.next().is_some() {
+            got += 1;
+            calls += 1;
+            if pb.position() != got {
+                return (viol("position-not-items-yielded", "Iterator-second-pass", format!("second pass after reset(): {got} items yielded, position {}", pb.position()), w, replay.into()), calls);
+            }
+        }
+        let want_pos = match fin_name {
+            "AndLeave" | "WithMessage" | "AndClear" => declared,
+            _ => got,
+        };
+        if !pb.is_finished() || pb.position() != want_pos || pb.message() != want_msg {
+            return (
+                viol(
+                    "finish-behaviour-not-applied",
+                    "Iterator-second-pass",
+                    format!("second pass over the reset bar ({m} items) with {fin_name}: finished {}, position {} (expected {want_pos}), message {:?} (expected {want_msg:?})", pb.is_finished(), pb.position(), pb.message()),
+                    w,
+                    replay.into(),
+                ),
+                calls,
+            );
+        }
+    }
     (Verdict::Held, calls)
 }
 
@@ -966,7 +998,7 @@ fn main() {
         let n = if thorough { 3_000_000 } else { 60_000 };
         run_parallel(n, workers(), |i| run_case(seed, i))
     };
-    let rule = "families in rotation: Read (read/read_vectored/read_exact/read_to_end on a scripted source with short reads, Interrupted, hard errors, zero-length transfers, EOF), BufRead (fill_buf / partial consume / read_line / read interleaved), Write (write/write_vectored/write_all/flush on a scripted sink), Seek (all three modes, rewind, stream_position on a Cursor), Iterator (next/next_back/len/size_hint, every ProgressFinish), tokio AsyncRead/AsyncBufRead/AsyncWrite/AsyncSeek and futures Stream polled by hand with scripted Pending, rayon pipelines (for_each, map-collect, zip, enumerate, rev, chunks, with_min_len, with_max_len, unindexed filter) on pools of 1-16 threads with 0-20000 items, and short-circuiting consumers (find_any/first/last, any, all, position_any, try_for_each, while_some, take_any, try_reduce; indexed and unindexed source; position compared with an upstream counting stage); every call is mirrored on a bare twin; distinct = (seed, index)";
+    let rule = "families in rotation: Read (read/read_vectored/read_exact/read_to_end on a scripted source with short reads, Interrupted, hard errors, zero-length transfers, EOF), BufRead (fill_buf / partial consume / read_line / read interleaved), Write (write/write_vectored/write_all/flush on a scripted sink), Seek (all three modes, rewind, stream_position on a Cursor), Iterator (next/next_back/len/size_hint, every ProgressFinish, optionally a second pass over the reset bar), tokio AsyncRead/AsyncBufRead/AsyncWrite/AsyncSeek and futures Stream polled by hand with scripted Pending, rayon pipelines (for_each, map-collect, zip, enumerate, rev, chunks, with_min_len, with_max_len, unindexed filter) on pools of 1-16 threads with 0-20000 items, and short-circuiting consumers (find_any/first/last, any, all, position_any, try_for_each, while_some, take_any, try_reduce; indexed and unindexed source; position compared with an upstream counting stage); every call is mirrored on a bare twin; distinct = (seed, index)";
     let mut j = report.to_json("C17", rule, false);
     j.set("wall_s", t0.elapsed().as_secs_f64());
     j.set("seed", seed);
